@@ -337,7 +337,7 @@ def run(ctx):
         recs = vlib.read_ndjson(tp)
         ctx.add_sample({"source": tag, "events": [{k: v for k, v in r.items() if k != "P"} for r in recs[1:5]]})
     # ---- the trace machinery rejects a tampered trace (the validation is not vacuous) ----
-    tamper(ctx, shards[0][2], known)
+    tamper(ctx, [tp for tag, sp, tp, args in reversed(shards)], known)
     # ---- known findings: re-execute the minimal history of each key without any relaxation ----
     for key, script in REPRO.items():
         sp, tp = ctx.path(f"repro_{key.split(':')[1]}.ndjson"), ctx.path(f"repro_{key.split(':')[1]}_trace.ndjson")
@@ -367,10 +367,13 @@ def run(ctx):
                       "prefix-byte / node-field decoding of the one-shot effect, validator wrapper)"])
 
 
-def tamper(ctx, trace_path, known):
+def tamper(ctx, trace_paths, known):
     """one corrupted field and one deleted line must be rejected"""
-    recs = vlib.read_ndjson(trace_path)
-    execs = vlib.split_executions(recs)
+    execs = []
+    for tp in trace_paths:
+        execs = [e for e in vlib.split_executions(vlib.read_ndjson(tp)) if len(e) < 400]
+        if any(r.get("e") == "Emit" and r.get("r") == "Ok" and sum(r["ln"]) == 1 for e in execs for r in e[:-1]):
+            break
     done = 0
     for e in execs:
         idx = [i for i, r in enumerate(e) if r.get("e") == "Emit" and r.get("r") == "Ok" and sum(r["ln"]) == 1 and i + 1 < len(e)]
